@@ -17,6 +17,7 @@ let parse_op (w : string list) : op option =
   | ["swap"; a; b] -> Some (Swap (ni a, ni b))
   | ["foreach"; l; stop] -> Some (Foreach (ni l, ni stop))
   | ["clear"; l] -> Some (Clear (ni l))
+  | ["fmove"; l; d; stop] -> Some (FMove (ni l, ni d, ni stop))
   | _ -> None
 
 let dump_sys (s : sys) : string =
@@ -65,6 +66,8 @@ let explore ~v0 (nlists : int) (keys : int list) (max_states : int) =
              L.iter (fun b -> if b <> e then add "insert_after %d %d %d" l b e) (rng ne)) (rng ne);
     add "pop_front %d" l; add "reverse %d" l; add "sort %d" l; add "clear %d" l;
     add "foreach %d 2" l;
+    (* foreach with the visitor that moves the visited element to list m *)
+    L.iter (fun m -> if m <> l then begin add "fmove %d %d 0" l m; add "fmove %d %d 2" l m end) (rng nlists);
     L.iter (fun m -> if m <> l then add "concat %d %d" l m; if l < m then add "swap %d %d" l m) (rng nlists))
     (rng nlists);
   let karr = Array.of_list (L.map z_of_int keys) in
